@@ -346,8 +346,12 @@ pub fn run_cap(case: &CapCase, ctx: &mut Ctx) -> R {
         } else {
             ensure!(s2 == supply, "C16/cap/refused-mint-changed-supply", "refused mint {i} changed the supply {supply} -> {s2}");
             let fits = a >= 0 && supply.checked_add(a).map(|s| s <= case.cap).unwrap_or(false);
-            if fits {
-                ctx.class("cap_refused_within_cap");
+            if fits && a > 0 {
+                // the documented refusals of the example's mint are MathOverflow and ExceededCap ("will exceed the cap"):
+                // a positive amount that keeps the supply within the cap (in particular exactly AT the cap) is accepted
+                bail!("C16/cap/refused-within-cap", "mint {i} of {a} refused ({:?}) although supply {supply} + {a} <= cap {}", r, case.cap);
+            } else if fits {
+                ctx.class("cap_zero_mint_refused");
             } else if a > 0 {
                 over_cap = true;
                 ctx.class("mint_over_cap_refused");
